@@ -472,6 +472,10 @@ func (s *AbsfsNFS) WriteWithContext(ctx context.Context, node *NFSNode, offset i
 
 	n, err := f.WriteAt(data, offset)
 	if err == nil {
+		// WRITE replies committed=FILE_SYNC: the data must be on stable storage before the reply
+		err = f.Sync()
+	}
+	if err == nil {
 		// Invalidate cache after successful write
 		s.attrCache.Invalidate(node.path)
 
